@@ -74,8 +74,37 @@ class State:
         self.symlog = []     # (name, width, expr) in creation order
         self.reached = []
         self.icount = 0
+        self.prio = 0
         self.user = {}
         self.endmsg = ""
+
+
+class WorkList:
+    """states ordered by priority class (= number of non-minimal count choices taken so far), LIFO inside a
+    class: the slice with all counts minimal is explored exhaustively first, then one count raised, ..."""
+
+    def __init__(self):
+        self.buckets = {}
+        self.n = 0
+
+    def append(self, st):
+        self.buckets.setdefault(st.prio, []).append(st)
+        self.n += 1
+
+    def pop(self):
+        k = min(self.buckets)
+        b = self.buckets[k]
+        st = b.pop()
+        if not b:
+            del self.buckets[k]
+        self.n -= 1
+        return st
+
+    def __len__(self):
+        return self.n
+
+    def __bool__(self):
+        return self.n > 0
 
 
 class PathEnd(Exception):
@@ -968,10 +997,11 @@ class Engine:
             raise PathEnd("infeasible")
         if len(vals) == maxvals and vals[-1] != (1 << x.size()) - 1 and self.sat(st, z3.UGT(x, vals[-1])):
             self.stats["bound_cuts"] = self.stats.get("bound_cuts", 0) + 1
-        for v in vals[1:]:
+        for i, v in enumerate(vals[1:]):
             o = self.fork(st)
             self.add_pc(o, x == v)
             o.frames[-1].ip -= 1
+            o.prio = st.prio + i + 1
             self.work.append(o)
             self.stats["forks"] += 1
         self.add_pc(st, x == vals[0])
@@ -1198,7 +1228,8 @@ class Engine:
         # static initialisers run first (pushed last)
         for c in reversed(self.ctor_names()):
             self.push_frame(st, self.decode(c), [], None)
-        work = [st]
+        work = WorkList()
+        work.append(st)
         self.work = work
         t0 = time.time()
         rnd = random.Random(seed)
@@ -1212,9 +1243,6 @@ class Engine:
                 break
             # DFS by default; once half of the budget is gone pick states at random so that
             # the explored part is spread over the tree
-            if self.deadline is not None and len(work) > 1 and time.time() - t0 > 0.5 * budget:
-                i = rnd.randrange(len(work))
-                work[i], work[-1] = work[-1], work[i]
             st = work.pop()
             self.cur = st
             try:
@@ -1333,6 +1361,7 @@ class Engine:
         n.symlog = list(st.symlog)
         n.reached = list(st.reached)
         n.icount = st.icount
+        n.prio = st.prio
         n.user = dict(st.user)
         n.frames = []
         for fr in st.frames:
